@@ -57,14 +57,15 @@ def expand_help_unit(prop):
 # ============================================================================ ArgumentParser._get_default_config_files
 def gd_setup(ctx):
     with_parent = ctx.choose(2, "inside-a-subcommand-parser") == 1
-    path_ok = ctx.choose(2, "files-readable") == 1
+    path_ok = ["all-readable", "one-match-is-not-a-readable-file(e.g. a directory matching the pattern)", "none-readable"][ctx.choose(3, "files-readable")]
+    bad_file = "conf.d/20-site.yaml"
     globs = {"conf.d/*.yaml": ["conf.d/20-site.yaml", "conf.d/10-local.yaml"], "conf.d/10-local.yaml": ["conf.d/10-local.yaml"], "missing.yaml": [], "parent.yaml": ["parent.yaml"], "~/u.yaml": ["/home/u/u.yaml"]}
     own = [["conf.d/*.yaml", "conf.d/10-local.yaml"], ["conf.d/10-local.yaml", "missing.yaml", "conf.d/*.yaml", "~/u.yaml"], []][ctx.choose(3, "own-patterns")]
     parent = Rec("ArgumentParser", attrs={"default_config_files": ["parent.yaml"]})
     ctx.classes.add("TypeError", ["Exception"])
 
     def path_ctor(c, a, k):
-        if not path_ok:
+        if path_ok == "none-readable" or (path_ok.startswith("one-match") and a[0] == bad_file):
             raise PyRaise(ExcVal("PathError", origin="Path()"))
         return Rec("Path", attrs={"file": a[0], "mode": k.get("mode")})
 
@@ -77,11 +78,13 @@ def gd_setup(ctx):
 def gd_post(ctx, st, result):
     d = st.data
     want = ([("fit", "parent.yaml")] if d["with_parent"] else []) + [(None, f) for pat in d["own"] for f in sorted(d["globs"][pat])]
-    if not d["path_ok"]:
-        ctx.oblige("post", "unreadable-default-config-files=>none-used", result == [])
-        return
+    # a match that is not a readable file is skipped; it does not switch the other default config files off
+    if d["path_ok"] == "none-readable":
+        want = []
+    elif d["path_ok"].startswith("one-match"):
+        want = [x for x in want if x[1] != "conf.d/20-site.yaml"]
     got = [(k, p.attrs["file"]) for k, p in result] if isinstance(result, list) and all(isinstance(x, tuple) and isinstance(x[1], Rec) for x in result) else None
-    ctx.oblige("post", "files:parent-parsers'-first,then-each-own-pattern-in-the-listed-order,sorted-within-a-pattern,a-file-matched-twice-applies-twice", got == want, note=f"{got} vs {want}")
+    ctx.oblige("post", "files:parent-parsers'-first,then-each-own-pattern-in-the-listed-order,sorted-within-a-pattern,a-file-matched-twice-applies-twice;every-readable-match-is-used(an unreadable one is skipped alone)" + f"[{d['path_ok'].split('(')[0]}]", got == want, note=f"{got} vs {want}")
     ctx.oblige("post", "opened-with-the-config-read-mode", isinstance(result, list) and all(p.attrs["mode"] == "fr" for _, p in result))
 
 
